@@ -212,6 +212,15 @@ func runC18(c *Ctx) {
 	for _, r := range bpReturns {
 		// (the supplied pool: the parameter itself, or the LoadedCAPool of the options the helper is handed)
 		ok, bad := allOrigins(r.Results[0], oParam(basePool, 0), oCall(-1, "crypto/x509.NewCertPool"), oFieldLoad("rt/client.TLSClientOptions", "LoadedCAPool", nil))
+		if !ok && bad != nil {
+			if ad, isLd := derefLoad(bad.V); isLd {
+				if g, isG := ad.(*ssa.Global); isG && isRepoPath(g.Pkg.Pkg.Path()) {
+					// a package-level pool: every configuration adds its roots to the same object (definite, whatever else changed)
+					c.obD("R18.4", r, "basePool-result", false, "basePool returns the supplied pool or a new empty pool", "the pool handed out is the package-level "+short(g.String())+": roots supplied to one call are trusted by every other configuration")
+					continue
+				}
+			}
+		}
 		c.obI("R18.4", r, "basePool-result", ok, "basePool returns the supplied pool or a new empty pool", "origin "+describeOrigin(bad))
 	}
 	rootStores := fieldStores(f, tlsConfigT, "RootCAs")
